@@ -144,7 +144,11 @@ def c17_three(shape: int, n1: int, n2: int, n3: int, nr: int, size: int, v: int,
     for ph, nm in actual.items():
         if user[ph] is None and nm in given:
             return f"auto-generated name {nm!r} collides with a user-chosen name {given}"
-    # the same program with those names through the other two front ends
+    # the same program with those names through the other two front ends: the oracle side, evaluated natively
+    return concretely(_c17_compare, cq, shape, actual, size, v, k, x)
+
+
+def _c17_compare(cq, shape, actual, size, v, k, x):
     named = q_program(shape, actual["L1"], actual["L2"], actual["L3"], actual["RG"], size, v, k, x)
     body_start = 5
     body = named[body_start:]
@@ -152,7 +156,7 @@ def c17_three(shape: int, n1: int, n2: int, n3: int, nr: int, size: int, v: int,
     if wrap:
         named = named[:body_start] + [["gate", "prepare_all"]] + body + [["gate", "measure_all"]]
     try:
-        ct = concretely(parse_jaqal_string, to_text(named), autoload_pulses=False)
+        ct = parse_jaqal_string(to_text(named), autoload_pulses=False)
         cb = to_builder(named).build()
     except JaqalError as ex:
         return f"the other front ends reject the program: {ex} :: {named}"
@@ -160,8 +164,14 @@ def c17_three(shape: int, n1: int, n2: int, n3: int, nr: int, size: int, v: int,
         return f"Q-syntax circuit differs from the parsed text (implicit prepare/measure expected: {wrap}) :: {named}"
     if not (cb == ct):
         return f"builder circuit differs from the parsed text :: {named}"
-    m1, _ = try_impl(cq)
-    m2, _ = try_impl(ct)
+    try:
+        m1 = R.impl_meaning(cq)
+    except R.Invalid:
+        m1 = None
+    try:
+        m2 = R.impl_meaning(ct)
+    except R.Invalid:
+        m2 = None
     if (m1 is None) != (m2 is None) or (m1 is not None and not R.same(m1, m2)):
         return f"meaning differs between Q-syntax and text :: {named}"
     return ""
